@@ -89,7 +89,7 @@ MUTANTS += [
       edits=[('src/sdt.rs', "        self.write(orig_length, value);", "        self.write(orig_length - 1, value);")]),
  dict(prop='C13', name='update_checksum sums from byte 1', expect='update_checksum',
       edits=[('src/sdt.rs', "super::generate_checksum(self.data.as_slice());", "super::generate_checksum(&self.data.as_slice()[1..]);")]),
- dict(prop='C13', name='a new public method pokes data directly', expect='Sdt.data',
+ dict(prop='C13', name='a new public method pokes data directly', expect='sdt::Sdt::poke',
       edits=[('src/sdt.rs', "    pub fn len(&self) -> usize {\n        self.data.len()", "    pub fn poke(&mut self, v: u8) {\n        self.data[10] = v;\n    }\n\n    pub fn len(&self) -> usize {\n        self.data.len()")]),
 ]
 MUTANTS += [
@@ -320,4 +320,6 @@ impl Checksum {
     }
 }
 ''')]),
+ dict(prop='C13', name='a free function in the sdt module writes the image behind the checksum', expect='Sdt.data',
+      edits=[('src/sdt.rs', "impl Sdt {\n", "pub fn smash(t: &mut Sdt) {\n    t.data[10] = 1;\n}\n\nimpl Sdt {\n")]),
 ]
